@@ -1,0 +1,6 @@
+//go:build verif
+
+// Contracts for govc (contract-based deductive verification, see /verif/DESIGN.md).
+// Comment-only file: it adds no code to the package, with or without the tag.
+
+package encoding
